@@ -1,6 +1,10 @@
 import LinOp.C14.Proofs
 import LinOp.Generated.C14Classes
 import LinOp.Generated.C14Alloc
+import LinOp.C14.ShapeProofs
+import LinOp.Generated.C14Shape
+import LinOp.C14.BcastProofs
+import LinOp.C14.KernelBProofs
 /-!
 C14 — copies, conversions and rebuilds denote the same matrix with the right dtype.  Property theorems only.
 
@@ -405,6 +409,227 @@ theorem previous_code_zero_dtype_lost_counterexample :
     dtypeOf (genCfg .f32) false z = some .f64 ∧
     ((conv (genCfg .f32) .clone z).bind (dtypeOf (genCfg .f32) false)) = some .f32 := by
   decide +kernel
+
+/-! ### Extension session 5: shape-dependent constructor normalisations (BatchRepeat unsqueeze loop, Block* block_dim move) -/
+
+/-- **`op.unsqueeze(0)` through the generic `LinearOperator._unsqueeze_batch`** (any nesting depth; every node reached
+through positional arguments uses the generic method — `genU`): the result has exactly one more dimension, the same
+skeleton (classes, arities, keyword names, all non-tensor arguments), and the same tensors up to their shapes — storage
+identity, dtype and requires_grad of every leaf are kept (views, nothing copied or cast); keyword tensors are untouched. -/
+theorem unsqueeze_adds_one_dim (o : Op) (h : genU o = true) :
+    ndim (unsqT o) = ndim o + 1 ∧ skel (unsqT o) = skel o ∧
+      (rep (unsqT o)).map Leaf.noShape = (rep o).map Leaf.noShape ∧ genU (unsqT o) = true :=
+  ⟨ndim_unsqT o h, skel_unsqT o, rep_unsqT o, by rw [genU_unsqT]; exact h⟩
+
+/-- **`BatchRepeatLinearOperator.__init__` unsqueeze loop** (`for _ in range(len(batch_repeat) + 2 - base.dim())`), for
+every base operator and every `r = len(batch_repeat)`: if the pre-pass succeeds, the stored base has
+`max(base.dim(), r + 2)` dimensions (so the repeat sizes line up with batch dimensions), the same skeleton, and the same
+tensors up to shape. -/
+theorem batch_repeat_constructor_spec (base b' : Op) (r : Nat) (h : preBR base r = some b') :
+    r + 2 ≤ ndim b' ∧ ndim b' = max (ndim base) (r + 2) ∧ skel b' = skel base ∧
+      (rep b').map Leaf.noShape = (rep base).map Leaf.noShape := preBR_spec base b' r h
+
+/-- **The generic `_permute_batch`** (tensors permuted in their leading `len(dims)` dimensions, sub-operators
+recursively, keyword arguments untouched) keeps the number of dimensions, the skeleton and every tensor up to its
+shape, for every tree in which no class overrides the method and every tensor has at least `len(dims)` dimensions. -/
+theorem permute_batch_keeps_structure (dims : List Nat) (o : Op) (h : genP dims.length o = true) :
+    ndim (permT dims o) = ndim o ∧ skel (permT dims o) = skel o ∧
+      (rep (permT dims o)).map Leaf.noShape = (rep o).map Leaf.noShape :=
+  ⟨ndim_permT dims o h, skel_permT dims o, rep_permT dims o⟩
+
+/-- **`BlockLinearOperator.__init__` moves the block dimension last**: the permutation
+`(*range(p), *range(p + 1, nd - 2), p)` it passes to `_permute_batch` has one entry per batch dimension and ends in
+`p`, and a tensor with at least that many dimensions keeps its number of dimensions — for all `nd`, `p < nd - 2`. -/
+theorem block_dim_moved_last (nd p : Nat) (h : p + 2 < nd) (s : List Nat) (hs : nd - 2 ≤ s.length) :
+    (moveDims nd p).length = nd - 2 ∧ (moveDims nd p).getLast? = some p ∧
+      (permShape (moveDims nd p) s).length = s.length :=
+  ⟨moveDims_length nd p h, moveDims_last nd p, permShape_length _ _ (by rw [moveDims_length nd p h]; exact hs)⟩
+
+/-- **The shape-dependent constructor normalisations are idempotent** — every class, every raw argument list: whatever
+the BatchRepeat unsqueeze loop / the Block* block_dim move produce is a fixed point of the same pre-pass (the loop runs
+zero times, `block_dim` is `-3`).  Together with `constructor_idempotent` this is why `cls(*_args, **_kwargs)` — the last
+step of every clone / detach / to / type / rebuild — does not reshape anything again. -/
+theorem shape_normalisation_idempotent (cls : String) (pos : List Op) (kw : List (String × Op)) (pos' : List Op)
+    (kw' : List (String × Op)) (h : preNorm cls pos kw = some (pos', kw')) :
+    preNorm cls pos' kw' = some (pos', kw') := preNorm_idem cls pos kw pos' kw' h
+
+/-- The full constructor (shape pre-pass, class normalisation, parameter binding) is the identity on every stored node
+whose arguments are shape-normal. -/
+theorem constructor_with_shape_pass_idempotent (cfg : Cfg) (cls : String) (a : List Op) (dn : List String) (d : List Op)
+    (nkw hid : KV) (hs : preNorm cls a (kwOf dn d nkw) = some (a, kwOf dn d nkw))
+    (h : nodeOK cfg cls a dn d nkw hid = true) :
+    constructS cfg cls a (kwOf dn d nkw) = some (.node cls a dn d nkw hid) := constructS_fix cfg cls a dn d nkw hid hs h
+
+def exDense22 : Op := .node "DenseLinearOperator" [tL 0 .f32] [] [] [] []
+def exSumDD : Op := .node "SumLinearOperator" [exDense22, .node "DiagLinearOperator" [.leaf ⟨.f32, [2], 1, false, true⟩] [] [] [] []] [] [] [] []
+
+/-- `cls(*_args, **_kwargs)` of a constructed operator, shape pre-pass included -/
+def reS (cfg : Cfg) : Option Op → Option Op
+  | some (.node c a dn d nkw _) => constructS cfg c a (kwOf dn d nkw)
+  | _ => none
+
+/-- Satisfiability of `genU` / `genP` / `preBR` / `preNorm` hypotheses, and an end-to-end instance with today's layouts:
+`BatchRepeat(Sum(Dense 2x2, Diag 2), batch_repeat=Size([2, 3]))` stores the base with shapes `[1,1,2,2]` / `[1,1,2]`
+(same storage ids, requires_grad kept), and re-applying the constructor to what was stored returns the same node;
+`BlockDiag(Dense[2,3,2,2], block_dim=0)` stores the base permuted to `[3,2,2,2]` and is a fixed point as well. -/
+theorem shape_constructor_examples :
+    genU exSumDD = true ∧ genP 2 exSumDD = false ∧
+    (constructS (todayCfg .f32) "BatchRepeatLinearOperator" [exSumDD] [("batch_repeat", .val (.ints [2, 3]))]).map
+        (fun o => (rep o).map (fun l => (l.shape, l.id, l.rg))) = some [([1, 1, 2, 2], 0, false), ([1, 1, 2], 1, true)] ∧
+    (reS (todayCfg .f32) (constructS (todayCfg .f32) "BatchRepeatLinearOperator" [exSumDD]
+        [("batch_repeat", .val (.ints [2, 3]))])).map (fun o => (rep o).map (·.shape)) = some [[1, 1, 2, 2], [1, 1, 2]] ∧
+    (constructS (todayCfg .f32) "BlockDiagLinearOperator"
+        [.node "DenseLinearOperator" [.leaf ⟨.f32, [2, 3, 2, 2], 0, false, false⟩] [] [] [] [], .val (.int 0)] []).map
+        (fun o => (rep o).map (·.shape)) = some [[3, 2, 2, 2]] := by
+  decide +kernel
+
+open LinOp.Generated.C14 in
+/-- **The generic `_unsqueeze_batch` / `_permute_batch` are applied exactly to the classes that inherit them**: the
+override lists of the model equal the classes whose C3-MRO-resolved method is not `LinearOperator`'s in today's source
+(a new override, or a removed one, breaks this obligation). -/
+theorem batch_method_owners_reviewed :
+    batchOwners.filterMap (fun r => if r.2.1 = "LinearOperator" then none else some r.1) = unsqOverride ∧
+    batchOwners.filterMap (fun r => if r.2.2.1 = "LinearOperator" then none else some r.1) = permOverride := by
+  decide +kernel
+
+/-- reviewed source text of the code regions mirrored by `LinOp/C14/Shape.lean` -/
+def reviewedPinned : List (String × List String) := [
+  ("BatchRepeatLinearOperator.__init__", ["if settings.debug.on():\n    if not isinstance(batch_repeat, torch.Size):\n        raise RuntimeError('batch_repeat must be a torch.Size, got a {} instead'.format(batch_repeat.__class__.__name__))\n    if isinstance(base_linear_op, BatchRepeatLinearOperator):\n        raise RuntimeError('BatchRepeatLinearOperator received the following args:\\nbase_linear_op: {} (size: {}), batch_repeat: {}.'.format(base_linear_op, base_linear_op.shape, batch_repeat))",
+    "for _ in range(len(batch_repeat) + 2 - base_linear_op.dim()):\n    base_linear_op = base_linear_op.unsqueeze(0)",
+    "super().__init__(base_linear_op, batch_repeat=batch_repeat)"]),
+  ("BlockLinearOperator.__init__", ["if base_linear_op.dim() < 3:\n    raise RuntimeError('base_linear_op must be a batch matrix (i.e. at least 3 dimensions - got {}'.format(base_linear_op.dim()))",
+    "block_dim = block_dim if block_dim < 0 else block_dim - base_linear_op.dim()",
+    "if block_dim != -3:\n    positive_block_dim = base_linear_op.dim() + block_dim\n    base_linear_op = base_linear_op._permute_batch(*range(positive_block_dim), *range(positive_block_dim + 1, base_linear_op.dim() - 2), positive_block_dim)",
+    "super(BlockLinearOperator, self).__init__(to_linear_operator(base_linear_op))"]),
+  ("LinearOperator._unsqueeze_batch", ["components = [component.unsqueeze(dim) for component in self._args]",
+    "res = self.__class__(*components, **self._kwargs)",
+    "return res"]),
+  ("LinearOperator._permute_batch", ["components = []",
+    "for component in self._args:\n    if torch.is_tensor(component):\n        extra_dims = range(len(dims), component.dim())\n        components.append(component.permute(*dims, *extra_dims))\n    elif isinstance(component, LinearOperator):\n        components.append(component._permute_batch(*dims))\n    else:\n        components.append(component)",
+    "res = self.__class__(*components, **self._kwargs)",
+    "return res"]),
+  ("LinearOperator.unsqueeze", ["positive_dim = self.dim() + dim + 1 if dim < 0 else dim",
+    "if positive_dim > len(self.batch_shape):\n    raise ValueError('Can only unsqueeze batch dimensions of {} (size {}). Got dim={}.'.format(self.__class__.__name__, self.shape, dim))",
+    "res = self._unsqueeze_batch(positive_dim)",
+    "return res"]),
+  ("DenseLinearOperator._expand_batch", ["return self.__class__(self.tensor.expand(*batch_shape, *self.matrix_shape))"])]
+
+open LinOp.Generated.C14 in
+/-- **The mirrored constructor code is unchanged**: the statements of `BatchRepeatLinearOperator.__init__` and
+`BlockLinearOperator.__init__` up to their `super().__init__` call, and the bodies of the generic
+`_unsqueeze_batch`, `_permute_batch`, `unsqueeze` and `DenseLinearOperator._expand_batch`, are literally the reviewed
+ones (any edit of these lines must be re-reviewed against `preBR` / `preBlock` / `unsqT` / `permT`). -/
+theorem pinned_source_reviewed : pinnedSource = reviewedPinned := by decide +kernel
+
+
+/-! ### Extension session 5, part 2: batch-broadcasting constructors (Sum / PsdSum / AddedDiag / Matmul / Interpolated) -/
+
+/-- **`_expand_batch(bs)` yields batch shape `bs`** for every operator tree the model follows (Dense / Diag / ConstantDiag /
+Toeplitz tensors `.expand`ed; Triangular / Chol / Root / LowRankRoot expanding the wrapped operator; Sum / PsdSum / AddedDiag /
+Matmul expanding every component), any nesting depth, any non-empty target shape. -/
+theorem expand_batch_gives_shape (bs : List Nat) (hbs : bs.isEmpty = false) (o o' : Op) (h : expandB bs o = some o') :
+    bshape o' = some bs := bshape_expandB bs hbs o o' h
+
+/-- **The broadcasting part of `SumLinearOperator.__init__` / `MatmulLinearOperator.__init__`** (also reached by PsdSum and
+AddedDiag), for every argument list: afterwards all stored arguments have one common batch shape, their number is
+unchanged, and the pre-pass applied to its own result changes nothing (so `cls(*_args, **_kwargs)` never expands again). -/
+theorem broadcast_constructor_spec (pos pos' : List Op) (h : preBroadcast pos = some pos') :
+    (∃ bs, ∀ x ∈ pos', bshape x = some bs) ∧ pos'.length = pos.length ∧ preBroadcast pos' = some pos' :=
+  preBroadcast_spec pos pos' h
+
+/-- **`InterpolatedLinearOperator.__init__` base expansion** is idempotent (the stored base already has the batch shape of
+the interpolation indices), and stores five arguments. -/
+theorem interpolated_base_expansion_idempotent (pos pos' : List Op) (h : preInterp pos = some pos') :
+    preInterp pos' = some pos' ∧ pos'.length = 5 := preInterp_idem pos pos' h
+
+/-- `torch.broadcast_shapes` laws used above: a shape broadcasts with itself and with `()` to itself. -/
+theorem broadcast_shapes_laws (bs : List Nat) : bcast bs bs = some bs ∧ bcast bs [] = some bs :=
+  ⟨bcast_self bs, bcast_nil_right bs⟩
+
+/-- **All shape-dependent constructor normalisations of the model together are idempotent** — BatchRepeat unsqueeze loop,
+Block* block_dim move, Sum / PsdSum / AddedDiag / Matmul batch broadcasting, Interpolated base expansion — for every class and
+every raw argument list. -/
+theorem all_shape_normalisations_idempotent (cls : String) (pos : List Op) (kw : List (String × Op)) (pos' : List Op)
+    (kw' : List (String × Op)) (h : preNormB cls pos kw = some (pos', kw')) :
+    preNormB cls pos' kw' = some (pos', kw') := preNormB_idem cls pos kw pos' kw' h
+
+/-- The full constructor with all shape pre-passes is the identity on every stored, shape-normal node. -/
+theorem constructor_with_broadcast_idempotent (cfg : Cfg) (cls : String) (a : List Op) (dn : List String) (d : List Op)
+    (nkw hid : KV) (hs : preNormB cls a (kwOf dn d nkw) = some (a, kwOf dn d nkw))
+    (h : nodeOK cfg cls a dn d nkw hid = true) :
+    constructB cfg cls a (kwOf dn d nkw) = some (.node cls a dn d nkw hid) := constructB_fix cfg cls a dn d nkw hid hs h
+
+def exDiagB (sh : List Nat) (i : Nat) : Op := .node "DiagLinearOperator" [.leaf ⟨.f32, sh, i, false, false⟩] [] [] [] []
+def exTriB (sh : List Nat) (i : Nat) : Op :=
+  .node "TriangularLinearOperator" [.node "DenseLinearOperator" [.leaf ⟨.f32, sh, i, false, true⟩] [] [] [] []] [] []
+    [("upper", .bool true)] []
+
+/-- `cls(*_args, **_kwargs)` of a constructed operator, all shape pre-passes included -/
+def reB (cfg : Cfg) : Option Op → Option Op
+  | some (.node c a dn d nkw _) => constructB cfg c a (kwOf dn d nkw)
+  | _ => none
+
+/-- Satisfiability and end-to-end instances with today's layouts: `Sum(TriU(Dense[2,2]), Diag[3,1,2], <tensor [2,2]>)`
+stores `TriU(Dense[3,1,2,2])` (upper kept, same storage id, requires_grad kept), the Diag unchanged and the raw tensor
+wrapped and expanded to `[3,1,2,2]`; `Matmul(Dense[2,2], Dense[2,2,2])` expands the left factor; re-applying the
+constructor to what was stored returns the same shapes. -/
+theorem broadcast_constructor_examples :
+    (constructB (todayCfg .f32) "SumLinearOperator" [exTriB [2, 2] 0, exDiagB [3, 1, 2] 1, tL 2 .f32] []).map
+        (fun o => (rep o).map (fun l => (l.shape, l.id, l.rg))) =
+      some [([3, 1, 2, 2], 0, true), ([3, 1, 2], 1, false), ([3, 1, 2, 2], 2, false)] ∧
+    (reB (todayCfg .f32) (constructB (todayCfg .f32) "SumLinearOperator"
+        [exTriB [2, 2] 0, exDiagB [3, 1, 2] 1, tL 2 .f32] [])).map (fun o => (rep o).map (·.shape)) =
+      some [[3, 1, 2, 2], [3, 1, 2], [3, 1, 2, 2]] ∧
+    (constructB (todayCfg .f32) "MatmulLinearOperator" [tL 0 .f32, .leaf ⟨.f32, [2, 2, 2], 1, false, false⟩] []).map
+        (fun o => (rep o).map (·.shape)) = some [[2, 2, 2], [2, 2, 2]] ∧
+    expandB [3] (exTriB [2, 2] 0) ≠ none ∧ preBroadcast [exTriB [2, 2] 0, exDiagB [3, 1, 2] 1] ≠ none := by
+  decide +kernel
+
+
+/-! ### Extension session 5, part 3: `KernelLinearOperator.__init__` broadcasting of x1 / x2 / tensor `**params` -/
+
+/-- **The Kernel constructor's broadcasting is idempotent** (all batch shapes, any number of tensor / operator / non-tensor
+`**params`), provided every tensor parameter has the two non-batch dimensions that the default
+`num_nonbatch_dimensions` assumes: re-applying the constructor to the stored `x1`, `x2`, `**params` neither reshapes nor
+copies anything again. -/
+theorem kernel_broadcast_idempotent (pos : List Op) (kw : List (String × Op)) (pos' : List Op) (kw' : List (String × Op))
+    (hk : kwDims2 kw = true) (h : preKernel pos kw = some (pos', kw')) : preKernel pos' kw' = some (pos', kw') :=
+  preKernel_idem pos kw pos' kw' hk h
+
+/-- **Every shape-dependent constructor pre-pass of the model is idempotent** (BatchRepeat, Block*, Sum / PsdSum /
+AddedDiag / Matmul, Interpolated, Kernel), every class and raw argument list. -/
+theorem all_constructor_prepasses_idempotent (cls : String) (pos : List Op) (kw : List (String × Op)) (pos' : List Op)
+    (kw' : List (String × Op)) (hk : cls = "KernelLinearOperator" → kwDims2 kw = true)
+    (h : preNormK cls pos kw = some (pos', kw')) : preNormK cls pos' kw' = some (pos', kw') :=
+  preNormK_idem cls pos kw pos' kw' hk h
+
+def exKx1 : Op := .leaf ⟨.f32, [3, 2], 0, false, true⟩
+def exKx2 : Op := .leaf ⟨.f32, [2, 2, 2], 1, false, false⟩
+def kwShapes (r : Option (List Op × List (String × Op))) : Option (List (List Nat) × List (List Nat) × List Bool) :=
+  r.map fun p => (repL p.1 |>.map (·.shape), repL (p.2.map (·.2)) |>.map (·.shape), repL p.1 |>.map (·.fresh))
+
+/-- Instances: `Kernel(x1[3,2], x2[2,2,2], scale[1,1], sel:int64[1,1], op=<operator>)` stores x1 expanded **and copied**
+(`contiguous`: fresh storage), x2 untouched (same storage), both tensor parameters expanded to `[2,1,1]`, the operator-valued
+parameter untouched; the hypothesis of `kernel_broadcast_idempotent` holds for it. -/
+theorem kernel_broadcast_example :
+    let kw : List (String × Op) := [("scale", .leaf ⟨.f32, [1, 1], 2, false, true⟩), ("sel", .leaf ⟨.i64, [1, 1], 3, false, false⟩),
+      ("op", exDense22), ("flag", .val (.int 2))]
+    kwDims2 kw = true ∧
+    kwShapes (preKernel [exKx1, exKx2, .val (.str "fn")] kw) =
+      some ([[2, 3, 2], [2, 2, 2]], [[2, 1, 1], [2, 1, 1], [2, 2]], [true, false]) := by
+  decide +kernel
+
+/-- **Observation (counterexample to unconditional idempotence)**: a tensor parameter with fewer than two dimensions
+(here a 0-dim `scale`) under the default `num_nonbatch_dimensions` is expanded to `[2]` by the constructor and to `[2, 2]`
+by the next `cls(*_args, **_kwargs)` — every clone / rebuild of such an operator grows the parameter.  (Such parameters
+are outside the documented contract of KernelLinearOperator; the constructor does not validate it.) -/
+theorem kernel_lowdim_param_grows_counterexample :
+    let kw : List (String × Op) := [("scale", .leaf ⟨.f32, [], 2, false, false⟩)]
+    kwShapes (preKernel [exKx1, exKx2] kw) = some ([[2, 3, 2], [2, 2, 2]], [[2]], [true, false]) ∧
+    kwShapes ((preKernel [exKx1, exKx2] kw).bind (fun p => preKernel p.1 p.2)) =
+      some ([[2, 3, 2], [2, 2, 2]], [[2, 2]], [true, false]) := by
+  decide +kernel
+
 
 /-! ### Obligations on the tables generated from today's source -/
 
